@@ -8,6 +8,7 @@ VERIF=$(pwd)
 mkdir -p .work/bin evidence replays
 build() {
   ( cd harness && cp /repo/go.sum go.sum 2>/dev/null; go build -tags verif -o "$VERIF/.work/bin/check" ./cmd/check ) || return 2
+  ( cd harness && go build -o "$VERIF/.work/bin/argvdump" ./cmd/argvdump ) || return 2
   ( cd /repo && go build -tags verif -o "$VERIF/.work/bin/task" ./cmd/task ) || return 2
   return 0
 }
